@@ -18,6 +18,7 @@ import re
 import shlex
 import socket
 import sys
+import time as real_time
 
 import common
 
@@ -40,7 +41,11 @@ RULE = ("cases = (a) documented spellings of boundary and random IPv4 addresses 
         "streams (regex engine, glibc numeric getaddrinfo, inet_aton/pton/ntop, ipaddress, int()). Verbosity is a "
         "dimension of every case: the level comes from the rotation [0,0,3,0,2,0,3,1] shifted by the seed, is put on "
         "the real command line as -v/-vv/-vvv/--verbose (argv front or end, SSHUTTLE_ARGS, or split between both) for "
-        "cases through cmdline.main and set in helpers.verbose around direct calls; the oracle does not change. A case is "
+        "cases through cmdline.main and set in helpers.verbose around direct calls; the oracle does not change. So is the "
+        "resolver environment: a rotation (period 7) of how the fake resolver fails for an unknown name (EAI_NONAME, "
+        "EAI_AGAIN, EAI_FAIL, EAI_NODATA) and how many virtual seconds that takes (0 .. 30 s on a fake clock that "
+        "replaces time.time/monotonic/sleep in the modules under test); texts with unknown host names run under "
+        "every environment and must end in the documented rejection. A case is "
         "non-trivial when it reached getaddrinfo, or was rejected by a specific check, or decomposed a "
         "multi-part specification; distinct = distinct input string per stream")
 MANIFEST = dict(
@@ -123,8 +128,9 @@ class GaiLog:
 class SocketShim:
     """`socket` as seen by sshuttle.options: everything real except name lookups."""
 
-    def __init__(self, log):
+    def __init__(self, log, owner=None):
         self._log = log
+        self._owner = owner
 
     def __getattr__(self, name):
         return getattr(socket, name)
@@ -145,7 +151,12 @@ class SocketShim:
         name = host.encode('idna').decode('ascii') if isinstance(host, str) else host.decode('ascii')
         ans = RESOLVER.get(name)
         if ans is None:
-            raise socket.gaierror(socket.EAI_NONAME, 'Name or service not known')
+            # the resolver environment of this case: how an unknown name fails and how long that takes
+            owner = self._owner
+            kind, delay = (socket.EAI_NONAME, 0.0) if owner is None else RENVS[owner.renv]
+            if owner is not None:
+                owner.clock.now += delay
+            raise socket.gaierror(kind, 'lookup of %r failed (fake resolver, kind %d, %.1f s)' % (name, kind, delay))
         p = socket.getaddrinfo('0.0.0.0', port, 0, socket.SOCK_STREAM, 0, socket.AI_NUMERICHOST)[0][4][1]
         out = []
         for fam, a in ans:
@@ -154,6 +165,57 @@ class SocketShim:
             else:
                 out.append((socket.AF_INET, socket.SOCK_STREAM, 6, '', (a, p)))
         return out
+
+
+# resolver environments: (gaierror kind for an unknown name, virtual seconds one failing lookup takes)
+RENVS = [(socket.EAI_NONAME, 0.0), (socket.EAI_AGAIN, 6.0), (socket.EAI_FAIL, 0.5), (socket.EAI_AGAIN, 0.0),
+         (socket.EAI_AGAIN, 2.5), (getattr(socket, 'EAI_NODATA', socket.EAI_NONAME), 0.0), (socket.EAI_AGAIN, 30.0)]
+
+
+class FakeClock:
+    def __init__(self):
+        self.now = 1000.0
+
+
+class TimeShim:
+    """`time` as seen by the code under test: a virtual clock that only the fake resolver and
+    `sleep` advance; everything else is the real module."""
+
+    def __init__(self, clock):
+        self._clock = clock
+
+    def __getattr__(self, name):
+        return getattr(real_time, name)
+
+    def time(self):
+        return self._clock.now
+
+    def monotonic(self):
+        return self._clock.now
+
+    def perf_counter(self):
+        return self._clock.now
+
+    def sleep(self, secs):
+        if secs < 0:
+            raise ValueError('sleep length must be non-negative')
+        self._clock.now += secs
+
+
+def install_clock(mods, shim):
+    """Replace `time` (and names imported from it) in whatever module of the code under test has
+    them -- looked up at run time, nothing is assumed to exist.  Returns the undo list."""
+    undo = []
+    for mod in mods:
+        if getattr(mod, 'time', None) is real_time:
+            undo.append((mod, 'time', real_time))
+            mod.time = shim
+        for name in ('time', 'monotonic', 'sleep', 'perf_counter'):
+            cur = getattr(mod, name, None)
+            if cur is not None and cur is getattr(real_time, name):
+                undo.append((mod, name, cur))
+                setattr(mod, name, getattr(shim, name))
+    return undo
 
 
 class Real:
@@ -171,7 +233,10 @@ class Real:
         self.ssnet = ssnet
         self.saved = (options.socket, client.main, sys.argv, os.environ.get('SSHUTTLE_ARGS'), helpers.verbose)
         self.saved_ssnet = (ssnet.MAX_CHANNEL, ssnet.LATENCY_BUFFER_SIZE)
-        options.socket = SocketShim(self.log)
+        self.clock = FakeClock()
+        self.renv = 0
+        options.socket = SocketShim(self.log, self)
+        self.clock_undo = install_clock([options, cmdline, ssh, helpers], TimeShim(self.clock))
         helpers.verbose = 0
         self.captured = None
         # verbosity is a dimension of every case (see `begin_case`)
@@ -191,6 +256,8 @@ class Real:
         self.options.socket, self.client.main, sys.argv, env, self.helpers.verbose = self.saved
         self.ssnet.MAX_CHANNEL, self.ssnet.LATENCY_BUFFER_SIZE = self.saved_ssnet
         self.options.parser.__dict__.pop('parse_args', None)
+        for mod, name, val in self.clock_undo:
+            setattr(mod, name, val)
         if env is None:
             os.environ.pop('SSHUTTLE_ARGS', None)
         else:
@@ -203,8 +270,11 @@ class Real:
         self.n += 1
         self.level = LEVELS[(self.n + self.seed) % len(LEVELS)]
         self.slot = (self.n // len(LEVELS) + self.seed) % 4
+        # ... and in a resolver environment (period 7, so that it does not stay paired with the level)
+        self.renv = (self.n + self.seed) % len(RENVS)
         if self.ctx is not None:
             self.ctx.hist('verbosity:%d' % self.level)
+            self.ctx.hist('resolver-env:%d/%.1fs' % RENVS[self.renv])
 
     def with_verbosity(self, env_tokens, argv):
         """the same command line at the current verbosity level: -v / -vv / -vvv / --verbose in
@@ -1131,6 +1201,53 @@ def file_cases(ctx, R, rng):
     return cases
 
 
+UNKNOWN_NAMES = ['nosuch.test', 'gateway', 'no-such-host.invalid', 'x.y.z.test']
+
+
+def run_unresolvable(R, kind, s):
+    """(what happened, is it the documented rejection) for a text whose host does not resolve"""
+    import argparse
+    if kind == 'subnet':
+        direct, layer, _val = run_subnet(R, s)
+        return '%s layer=%s' % (direct, layer), direct == 'fatal unresolved' and layer == 'usage'
+    if kind == 'ipport':
+        direct, layer, _val = run_ipport(R, s)
+        return '%s layer=%s' % (direct, layer), direct == 'fatal unresolved' and layer == 'usage'
+    out = run_listen(R, s)
+    k, v = R.last
+    good = (k == 'exc' and (isinstance(v, (argparse.ArgumentTypeError, R.helpers.Fatal)) or
+                            (isinstance(v, SystemExit) and v.code == 2))) or (k == 'ok' and v == 99)
+    return '%s (%s)' % (out, type(v).__name__ if k == 'exc' else 'returned %r' % (v,)), good
+
+
+def unresolvable_cases(ctx, R):
+    """Texts whose host is a name no resolver knows, each under every resolver environment
+    (every gaierror kind, instant and slow in virtual time): the only acceptable end is the
+    documented rejection -- ArgumentTypeError 'Unable to resolve address' / Fatal / usage error."""
+    cases = []
+    texts = [('subnet', n + suf) for n in UNKNOWN_NAMES for suf in ['', '/24', ':80', '/24:80-90']] + \
+            [('ipport', n + suf) for n in UNKNOWN_NAMES[:3] for suf in ['', ':12300']] + \
+            [('listen', 'gateway:12300'), ('listen', 'nosuch.test'), ('listen', '127.0.0.1:2,nosuch.test:1')]
+    for kind, s in texts:
+        for _ in range(len(RENVS)):          # consecutive cases walk through the whole rotation
+            R.begin_case()
+            out, good = run_unresolvable(R, kind, s)
+            ctx.hist('unresolvable:%s' % kind)
+            if not good:
+                ctx.violation('C16:resolver:unresolvable-not-rejected',
+                              case=dict(stream='unresolvable', kind=kind, s=s),
+                              expected="the documented rejection (ArgumentTypeError 'Unable to resolve address' / "
+                                       "usage error), whatever the resolver's failure kind and however long it took",
+                              observed=out)
+            if kind == 'subnet':
+                cases.append(Case('subnet', 'sub %s' % hx(s), out, True, s))
+            elif kind == 'ipport':
+                cases.append(Case('ipport', 'ipp %s' % hx(s), out, True, s))
+            else:
+                cases.append(Case('listen', 'listen %s' % hx(s), out.split(' (')[0], True, s))
+    return cases
+
+
 STORE_VALUES = {
     '--listen': ['127.0.0.1:0', '0.0.0.0:12300', '[::1]:0', '1234'],
     '--ns-hosts': ['1.1.1.1', '8.8.8.8,8.8.4.4', '::1'],
@@ -1270,7 +1387,7 @@ def gen_cases(ctx):
 
     def violation_at_level(key, case, *a, **k):
         # the level and the spelling of the -v flags are part of the case, so that --replay restores them
-        return record(key, dict(case, level=R.level, vslot=R.slot), *a, **k)
+        return record(key, dict(case, level=R.level, vslot=R.slot, renv=R.renv), *a, **k)
     ctx.violation = violation_at_level
     cases = []
     try:
@@ -1332,6 +1449,7 @@ def gen_cases(ctx):
         cases += env_cases(ctx, R, rng)
         cases += listen_env_cases(ctx, R, rng)
         cases += file_cases(ctx, R, rng)
+        cases += unresolvable_cases(ctx, R)
     finally:
         ctx.violation = record
         R.close()
@@ -1390,14 +1508,16 @@ def run(ctx):
 
 def replay(ctx, rep):
     fails, info = _replay(ctx, rep)
-    return fails, '%s [verbosity level %d, -v placement %d]' % (
-        info, int(rep['case'].get('level', 0)), int(rep['case'].get('vslot', 0)))
+    kind, delay = RENVS[int(rep['case'].get('renv', 0)) % len(RENVS)]
+    return fails, '%s [verbosity level %d, -v placement %d; unknown names fail with gaierror %d after %.1f virtual s]' % (
+        info, int(rep['case'].get('level', 0)), int(rep['case'].get('vslot', 0)), kind, delay)
 
 
 def _replay(ctx, rep):
     case = rep['case']
     R = Real()
     R.level, R.slot = int(case.get('level', 0)), int(case.get('vslot', 0))
+    R.renv = int(case.get('renv', 0)) % len(RENVS)
     try:
         st = case.get('stream')
         if st == 'subnet':
@@ -1469,6 +1589,9 @@ def _replay(ctx, rep):
             obs = None if got is None else canon_subnets(got[1] if case['option'] == '-X' else got[0])
             return obs != want, '%s <file %r>: client.main got %s; the file lists %s' % (
                 case['option'], case['content'], 'nothing' if obs is None else sorted(obs), sorted(want))
+        if st == 'unresolvable':
+            out, good = run_unresolvable(R, case['kind'], case['s'])
+            return (not good), '%s %r -> %s' % (case['kind'], case['s'], out)
         return False, 'unknown replay stream %r' % st
     finally:
         R.close()
